@@ -197,6 +197,8 @@ def specOp (s0 : SpecSt) (op ans : List String) : SpecSt × String :=
   match op with
   | ["audit"] => (s, auditVerdict line)
   | "setprotect" :: rest => ({ s with protect := AL.set s.protect (kv rest "svc") ((kv rest "p").toNat?.getD 0) }, "-")
+  -- a service that is removed takes its protection threshold with it (a later registration creates it with the default)
+  | "rmservice" :: rest => (if ans == ["ok"] then { s with protect := AL.erase s.protect (kv rest "svc") } else s, "-")
   | "list" :: rest => (s, listVerdict rest ans ((AL.get? s.protect (kv rest "svc")).getD 0))
   | "rmclient" :: c :: _ => ({ s with ruled := false }, rmclientVerdict c line)
   | "rmclientc" :: c :: _ => ({ s with ruled := false }, rmclientVerdict c line)
